@@ -162,6 +162,10 @@ def run(ctx):
         distinct.add(json.dumps([[x["t"] for x in b], a.get("r")]))
         if a != m:
             mism.append(dict(kind="parse", blocks=b, impl=a, model=m))
+        twice = pandoc.impl_parse_twice(b)
+        if twice is not None and twice[0] != twice[1]:
+            ofails.append((dict(kind="parse", blocks=b), "parser-state: a second generate() on the same parser yields a different card "
+                           f"(toc {twice[0][1]!r} vs {twice[1][1]!r})"))
         for fl in oracle_doc(b):
             f = finding_for(fl, findings)
             if f:
